@@ -12,6 +12,7 @@ From Coq Require Import ZArith List Bool.
 Import ListNotations.
 Require Import WnV.Base.Sx WnV.Gen.LmfTables WnV.Model.Val WnV.Model.XmlText WnV.Model.Lmf.
 Require Import WnV.Proofs.XmlTextProofs WnV.Proofs.LmfProofs.
+Require Import WnV.Proofs.LmfRequired.
 Require Import WnV.Model.Scan WnV.Proofs.ScanProofs.
 Local Open Scope Z_scope.
 
@@ -489,3 +490,189 @@ Theorem C20_scan_dump_example :
 Proof. exact (@scan_dump_example). Qed.
 Print Assumptions C20_scan_dump_example.
 
+(* ---- required attributes and children (Proofs/LmfRequired.v): for every assert / conversion of the _validate* functions of wn/lmf.py there is a boolean fault predicate on the document tree (at exactly the positions the validators visit) and a theorem that a document with that fault is rejected, for every version and wherever the fault occurs: R1 the six Lexicon attributes; R2 Lemma / writtenForm / partOfSpeech; R3 synset of a Sense, ili of a Synset; R4 target / relType of relations, id / version of Requires and Extends, subcategorizationFrame, category of a Tag; R5 Count text that int() rejects; R6 External* elements outside an extension, ExternalForm without id, a root that is not LexicalResource.  any_fault is their disjunction together with LmfProofs.missing_id *)
+Theorem C20_r1_rejected :
+  forall (version : str) (t : xtree),
+         r1_fault t = true -> exists e : err, load_tree version t = Err e.
+Proof. exact (@r1_rejected). Qed.
+Print Assumptions C20_r1_rejected.
+
+Theorem C20_r2_rejected :
+  forall (version : str) (t : xtree),
+         r2_fault t = true -> exists e : err, load_tree version t = Err e.
+Proof. exact (@r2_rejected). Qed.
+Print Assumptions C20_r2_rejected.
+
+Theorem C20_r3_rejected :
+  forall (version : str) (t : xtree),
+         r3_fault t = true -> exists e : err, load_tree version t = Err e.
+Proof. exact (@r3_rejected). Qed.
+Print Assumptions C20_r3_rejected.
+
+Theorem C20_r4_rejected :
+  forall (version : str) (t : xtree),
+         r4_fault t = true -> exists e : err, load_tree version t = Err e.
+Proof. exact (@r4_rejected). Qed.
+Print Assumptions C20_r4_rejected.
+
+Theorem C20_r5_rejected :
+  forall (version : str) (t : xtree),
+         r5_fault t = true -> exists e : err, load_tree version t = Err e.
+Proof. exact (@r5_rejected). Qed.
+Print Assumptions C20_r5_rejected.
+
+Theorem C20_r6_xform_rejected :
+  forall (version : str) (t : xtree),
+         r6_xform_fault t = true -> exists e : err, load_tree version t = Err e.
+Proof. exact (@r6_xform_rejected). Qed.
+Print Assumptions C20_r6_xform_rejected.
+
+Theorem C20_r6_external_rejected :
+  forall (version : str) (t : xtree),
+         r6_external_fault t = true -> exists e : err, load_tree version t = Err e.
+Proof. exact (@r6_external_rejected). Qed.
+Print Assumptions C20_r6_external_rejected.
+
+Theorem C20_root_not_lexical_resource_rejected :
+  forall (version : str) (t : xtree),
+         str_eqb (xname t) (str_of_string "LexicalResource") = false ->
+         exists e : err, load_tree version t = Err e.
+Proof. exact (@root_not_lexical_resource_rejected). Qed.
+Print Assumptions C20_root_not_lexical_resource_rejected.
+
+Theorem C20_required_rejected :
+  forall (version : str) (t : xtree),
+         required_fault t = true -> exists e : err, load_tree version t = Err e.
+Proof. exact (@required_rejected). Qed.
+Print Assumptions C20_required_rejected.
+
+Theorem C20_any_fault_rejected :
+  forall (version : str) (t : xtree),
+         any_fault t = true -> exists e : err, load_tree version t = Err e.
+Proof. exact (@any_fault_rejected). Qed.
+Print Assumptions C20_any_fault_rejected.
+
+Theorem C20_load_rejects_any_fault :
+  forall (l1 l2 : str) (t : xtree), any_fault t = true -> exists e : err, load l1 l2 t = Err e.
+Proof. exact (@load_rejects_any_fault). Qed.
+Print Assumptions C20_load_rejects_any_fault.
+
+Theorem C20_load_rejects_required_for_version :
+  forall (l1 l2 : str) (t : xtree) (version : str),
+         read_header l1 l2 = Ok version ->
+         r2_fault t = true \/
+         r3_fault t = true \/
+         r4_fault t = true \/
+         r1_fault t = true \/
+         r5_fault t = true \/
+         r6_xform_fault t = true \/
+         r6_external_fault t = true \/ str_eqb (xname t) (str_of_string "LexicalResource") = false ->
+         exists e : err, load l1 l2 t = Err e.
+Proof. exact (@load_rejects_required_for_version). Qed.
+Print Assumptions C20_load_rejects_required_for_version.
+
+(* ---- non-vacuity and sharpness: documents with each fault (rejected, with the exception class the implementation raises: -6 AssertionError, -4 ValueError, -3 KeyError) and accepted neighbours (0); the same documents are given to the real wn.lmf.load by the check on every run *)
+Theorem C20_r1_lexicon_no_license_fault :
+  r1_fault r1_lexicon_no_license = true.
+Proof. exact (@r1_lexicon_no_license_fault). Qed.
+Print Assumptions C20_r1_lexicon_no_license_fault.
+
+Theorem C20_r1_lexicon_no_license_verdict :
+  verdict (str_of_string "1.1") r1_lexicon_no_license = -6.
+Proof. exact (@r1_lexicon_no_license_verdict). Qed.
+Print Assumptions C20_r1_lexicon_no_license_verdict.
+
+Theorem C20_r2_lemma_no_pos_fault :
+  r2_fault r2_lemma_no_pos = true.
+Proof. exact (@r2_lemma_no_pos_fault). Qed.
+Print Assumptions C20_r2_lemma_no_pos_fault.
+
+Theorem C20_r2_lemma_no_pos_verdict :
+  verdict (str_of_string "1.1") r2_lemma_no_pos = -6.
+Proof. exact (@r2_lemma_no_pos_verdict). Qed.
+Print Assumptions C20_r2_lemma_no_pos_verdict.
+
+Theorem C20_r3_sense_no_synset_fault :
+  r3_fault r3_sense_no_synset = true.
+Proof. exact (@r3_sense_no_synset_fault). Qed.
+Print Assumptions C20_r3_sense_no_synset_fault.
+
+Theorem C20_r3_sense_no_synset_verdict :
+  verdict (str_of_string "1.1") r3_sense_no_synset = -6.
+Proof. exact (@r3_sense_no_synset_verdict). Qed.
+Print Assumptions C20_r3_sense_no_synset_verdict.
+
+Theorem C20_r4_requires_no_version_fault :
+  r4_fault r4_requires_no_version = true.
+Proof. exact (@r4_requires_no_version_fault). Qed.
+Print Assumptions C20_r4_requires_no_version_fault.
+
+Theorem C20_r4_requires_no_version_verdict :
+  verdict (str_of_string "1.1") r4_requires_no_version = -6.
+Proof. exact (@r4_requires_no_version_verdict). Qed.
+Print Assumptions C20_r4_requires_no_version_verdict.
+
+Theorem C20_r5_count_decimal_fault :
+  r5_fault r5_count_decimal = true.
+Proof. exact (@r5_count_decimal_fault). Qed.
+Print Assumptions C20_r5_count_decimal_fault.
+
+Theorem C20_r5_count_decimal_verdict :
+  verdict (str_of_string "1.1") r5_count_decimal = -4.
+Proof. exact (@r5_count_decimal_verdict). Qed.
+Print Assumptions C20_r5_count_decimal_verdict.
+
+Theorem C20_r6_external_sense_in_lexicon_fault :
+  r6_external_fault r6_external_sense_in_lexicon = true.
+Proof. exact (@r6_external_sense_in_lexicon_fault). Qed.
+Print Assumptions C20_r6_external_sense_in_lexicon_fault.
+
+Theorem C20_r6_external_sense_in_lexicon_verdict :
+  verdict (str_of_string "1.1") r6_external_sense_in_lexicon = -6.
+Proof. exact (@r6_external_sense_in_lexicon_verdict). Qed.
+Print Assumptions C20_r6_external_sense_in_lexicon_verdict.
+
+Theorem C20_r6_external_form_no_id_fault :
+  r6_xform_fault r6_external_form_no_id = true.
+Proof. exact (@r6_external_form_no_id_fault). Qed.
+Print Assumptions C20_r6_external_form_no_id_fault.
+
+Theorem C20_r6_external_form_no_id_verdict :
+  verdict (str_of_string "1.1") r6_external_form_no_id = -6.
+Proof. exact (@r6_external_form_no_id_verdict). Qed.
+Print Assumptions C20_r6_external_form_no_id_verdict.
+
+Theorem C20_r6_root_is_lexicon_verdict :
+  verdict (str_of_string "1.1") r6_root_is_lexicon = -3.
+Proof. exact (@r6_root_is_lexicon_verdict). Qed.
+Print Assumptions C20_r6_root_is_lexicon_verdict.
+
+Theorem C20_a_minimal_verdict :
+  verdict (str_of_string "1.1") a_minimal = 0.
+Proof. exact (@a_minimal_verdict). Qed.
+Print Assumptions C20_a_minimal_verdict.
+
+Theorem C20_a_lexicon_empty_values_verdict :
+  verdict (str_of_string "1.1") a_lexicon_empty_values = 0.
+Proof. exact (@a_lexicon_empty_values_verdict). Qed.
+Print Assumptions C20_a_lexicon_empty_values_verdict.
+
+Theorem C20_a_synset_no_part_of_speech_verdict :
+  verdict (str_of_string "1.1") a_synset_no_part_of_speech = 0.
+Proof. exact (@a_synset_no_part_of_speech_verdict). Qed.
+Print Assumptions C20_a_synset_no_part_of_speech_verdict.
+
+Theorem C20_a_count_lenient_verdict :
+  verdict (str_of_string "1.1") a_count_lenient = 0.
+Proof. exact (@a_count_lenient_verdict). Qed.
+Print Assumptions C20_a_count_lenient_verdict.
+
+Theorem C20_a_extension_empty_extends_verdict :
+  verdict (str_of_string "1.1") a_extension_empty_extends = 0.
+Proof. exact (@a_extension_empty_extends_verdict). Qed.
+Print Assumptions C20_a_extension_empty_extends_verdict.
+
+Theorem C20_a_dangling_references_verdict :
+  verdict (str_of_string "1.1") a_dangling_references = 0.
+Proof. exact (@a_dangling_references_verdict). Qed.
+Print Assumptions C20_a_dangling_references_verdict.
